@@ -7,7 +7,7 @@ from props import C16search
 LEVEL = "proof"
 CLAIMED = True          # the minimal theorem tc_sound_core (DESIGN.md section 6) is discharged
 RULE = ("Coq: Properties/C16.v tc_sound_core (the model checker tc of Typing.v is sound for the model big-step semantics of the "
-        "first-order core: accepted => never the TypeError outcome, for every fuel). Tie to the code: (a) verdict "
+        "first-order core incl. Option/match/for/return/pairs: accepted => never the TypeError outcome, for every fuel). Tie to the code: (a) verdict "
         "correspondence on generated fragment programs and their single-node mutants: every program the extracted tc "
         "ACCEPTS must be accepted by `garden check --json` (no error diagnostics) and must not raise a type-related error "
         "when run on the interpreter; the converse direction is only counted. (b) Search on the implementation itself "
@@ -18,40 +18,69 @@ RULE = ("Coq: Properties/C16.v tc_sound_core (the model checker tc of Typing.v i
 META = {
     "technique": "Coq soundness proof (big-step progress/preservation) of a hand-written MODEL checker against a MODEL semantics "
                  "+ verdict correspondence (model checker vs `garden check`) + generate-mutate-check-run search on the binary",
-    "level_text": ("Coq theorem tc_sound_core: for the model checker `tc_prog` (Typing.v: Int/Bool/String/List<Int> literals, "
-                   "variables, let, assignment, += / -=, operators, if / if-else, while, blocks, println, string_repr, calls of "
-                   "top-level functions with fully annotated parameters and return types) and the model big-step semantics "
-                   "`run`, tc_prog p = true implies run fuel p <> TypeError for every fuel, where TypeError is every "
-                   "type-related runtime error class of the property that can arise in the fragment (wrong operand / argument / "
-                   "condition type, wrong arity, calling a non-function, unknown or unbound variable, failed parameter or "
-                   "return annotation check). Proved by induction on the evaluator's fuel with a combined progress + "
-                   "preservation statement (tc_progress_preservation)."),
+    "level_text": ("Coq theorem tc_sound_core (= tc_sound_core_option_match_for_return): for the model checker `tc_prog` "
+                   "(Typing.v) and the model big-step semantics `run`, tc_prog p = true implies run fuel p <> TypeError for "
+                   "every fuel. Fragment: Int/Bool/String literals, List<Int> literals (the empty literal has its own type "
+                   "below List<Int>), Option<T> values with Some/None (None : Option<NoValue>), variables, let, assignment, "
+                   "+= / -=, the binary operators, if / if-else, `match` on an Option with exactly the arms Some(x) and None "
+                   "(either order), while, `for x in <List<Int>>`, blocks, pairs `(a, b)` with the destructuring `let (x, y) = e`, "
+                   "println, string_repr, early `return e` checked "
+                   "against the declared return type, calls of top-level functions with fully annotated parameters and return "
+                   "types (Int, Bool, String, Unit, List<Int>, Option<T>, (T, U)); subtyping NoValue <= T, Option and pairs covariant, "
+                   "[] <= List<Int> at arguments, assignments, returns, function results, operands and branch joins "
+                   "(subtyping_sound). TypeError is every type-related runtime error class of the property that can arise in "
+                   "the fragment: wrong operand / argument / condition / iterated / scrutinee / destructured type, wrong arity, calling a "
+                   "non-function, unknown or unbound variable, failed parameter or return annotation check, and a `match` "
+                   "with no arm for the value (tc rejects a missing arm: Example tc_rejects_nonexhaustive_match). Proved by "
+                   "induction on the evaluator's fuel with a combined progress + preservation statement "
+                   "(tc_progress_preservation; `return` travels as a control outcome carrying a value of the declared type)."),
     "level_note": ("HONEST SCOPE: the theorem is about the MODEL checker and the MODEL semantics, not about "
                    "src/checks/type_checker.rs (3251 lines, bidirectional, gradual). The tie to the real checker is "
                    "empirical: on every run, each generated fragment program or mutant that the extracted tc accepts must be "
                    "accepted by `garden check` and must run without a type-related error; tc is deliberately stricter than "
-                   "garden (== wants equal types, if-else branches equal types, no function values), the converse is only "
-                   "counted. Outside the fragment (match, enums/Option, for, tuples, closures, methods, structs, generics, "
-                   "Any, return, break/continue) there is NO theorem: those are covered only by the search, which finds "
-                   "genuine holes of the gradual checker (reported as violations / known findings by construct class). "
-                   "Trusted: Coq kernel; Typing.v as a model; extraction + ocaml/ops_typing.ml (S-expression reader on the "
-                   "implementation's own parser output); hook ops sexp and run; message-pattern classification of runtime "
-                   "errors."),
+                   "garden in places (if-else / match branches need comparable types, a list literal needs an Int item, no "
+                   "function values, match arms exactly Some(x)/None without wildcards), and mirrors two quirks found by the "
+                   "correspondence (`a + b` with both operands of type NoValue is rejected like garden's 'use +.' error; the "
+                   "loop variable of `for x in []` has type NoValue); the converse direction is only counted. Outside the "
+                   "fragment (user enums, tuples of other arities than 2, closures, methods, structs, generics, Any, break/continue, "
+                   "wildcard patterns) there is NO theorem: those are covered only by the search, which finds genuine holes "
+                   "of the gradual checker (reported as violations / known findings by construct class). Trusted: Coq kernel; "
+                   "Typing.v as a model; extraction + ocaml/ops_typing.ml (S-expression reader on the implementation's own "
+                   "parser output); hook ops sexp and run; message-pattern classification of runtime errors."),
     "design_ref": "DESIGN.md section 5 C16, section 6 minimal theorem tc_sound_core",
 }
 
-FRAG_FEATURES = {"fun", "while", "list"}
-FRAG_TYPES = ["Int", "Bool", "Str", "ListInt"]
+FRAG_FEATURES = {"fun", "while", "list", "match", "for", "return"}
+FRAG_TYPES = ["Int", "Bool", "Str", "ListInt", "OptInt"]
+
+
+PAIR_FUN = ("fun swp%d(p: (Int, String)): (String, Int) {\n  let (q1, q2) = p\n  (q2, (q1 + %d))\n}\n")
+
+
+def with_pairs(rng, src, k):
+    """Add pair values / destructuring lets (genprog has none) in front of a fragment program."""
+    r = rng.random()
+    ints = ["3", "(1 + 2)", "-4"]
+    strs = ['"s"', '("a" ^ "b")', 'string_repr(7)']
+    if r < 0.45:
+        return src
+    a, b = ints[rng.randrange(3)], strs[rng.randrange(3)]
+    if r < 0.75:
+        return ("let (tpa%d, tpb%d) = (%s, %s)\nprintln(string_repr((tpa%d + 1)))\nprintln((tpb%d ^ \"!\"))\n"
+                % (k, k, a, b, k, k) + src)
+    return (PAIR_FUN % (k, rng.randrange(5)) + "let (twa%d, twb%d) = swp%d((%s, %s))\nprintln(string_repr((twb%d * 2)))\n"
+            % (k, k, k, a, b, k) + src)
 
 
 def fragment_programs(rng, n, size):
-    """genprog restricted to the model's fragment (no Option/match/for/closures/tuples/return/break)."""
+    """genprog restricted to the model's fragment (no closures/break/continue/user enums), plus pair snippets."""
     saved = genprog.TYPES
     genprog.TYPES = FRAG_TYPES
     try:
-        return genprog.programs(rng, n, size=size, annotate=True, features=set(FRAG_FEATURES))
+        progs = genprog.programs(rng, n, size=size, annotate=True, features=set(FRAG_FEATURES))
     finally:
         genprog.TYPES = saved
+    return [with_pairs(rng, s, k) for k, s in enumerate(progs)]
 
 
 def tc_verdicts(ctx, exe, mdl, srcs):
@@ -116,7 +145,7 @@ def correspondence(ctx, exe, mdl, n):
 def run(ctx):
     ctx.trusted = [
         "Coq 8.16.1 kernel (coqc); vm_compute only in Examples",
-        "coq/Typing.v is a HAND-WRITTEN model checker + model semantics for the first-order core; it is NOT derived from "
+        "coq/Typing.v is a HAND-WRITTEN model checker + model semantics for the first-order core (with Option/match/for/return/pairs); it is NOT derived from "
         "src/checks/type_checker.rs; tie = verdict correspondence (tc accepts => garden check accepts, and the program runs "
         "without a type-related error) on generated programs and mutants",
         "Extraction (ExtrOcamlBasic) + ocaml/ops_typing.ml (S-expression reader over the implementation's own parser output)",
